@@ -32,7 +32,7 @@ fn vio(prop: &str, class: &str, msg: String) -> Violation {
 fn map_regs(regs: &mut [Reg], f: &mut dyn FnMut(&mut Reg)) {
     for r in regs.iter_mut() {
         f(r);
-        if let Reg::Batch { inner, .. } = r {
+        if let Reg::Batch { inner, .. } | Reg::TlDisp { inner } = r {
             map_regs(inner, f);
         }
     }
@@ -82,7 +82,7 @@ pub fn rename(sc: &Scenario, rng: &mut Rng) -> Scenario {
                 }
                 _ => {}
             }
-            if let Reg::Batch { inner, .. } = r {
+            if let Reg::Batch { inner, .. } | Reg::TlDisp { inner } = r {
                 go(inner, rng, counter);
             }
         }
